@@ -51,6 +51,11 @@ func (s *FuzzServiceStub) ImportBlock(block types.Block) (types.StateRoot, error
 		defer cs.TrimUnfinalizedBlocksForFuzz()
 	}
 
+	// Remember the node's head at the start of this import (before a fork block makes us
+	// restore to its parent), to roll back to it if the block turns out to be invalid.
+	var headBefore types.HeaderHash
+	haveHeadBefore := false
+
 	blocks := cs.GetBlocks()
 	if len(blocks) > 0 {
 		latestBlock := cs.GetLatestBlock()
@@ -59,6 +64,7 @@ func (s *FuzzServiceStub) ImportBlock(block types.Block) (types.StateRoot, error
 		if err != nil {
 			return types.StateRoot{}, fmt.Errorf("error computing latest block hash: %w", err)
 		}
+		headBefore, haveHeadBefore = latestBlockHash, true
 
 		ancestry := cs.GetAncestry()
 		var latestAncestry types.AncestryItem
@@ -93,15 +99,6 @@ func (s *FuzzServiceStub) ImportBlock(block types.Block) (types.StateRoot, error
 			if err != nil {
 				return types.StateRoot{}, fmt.Errorf("failed to restore block and state after parent mismatch: %w", err)
 			}
-		}
-	}
-
-	// Remember the head this import builds on, to roll back to it if the block is invalid.
-	var headBefore types.HeaderHash
-	haveHeadBefore := false
-	if len(cs.GetBlocks()) > 0 {
-		if h, herr := hash.ComputeBlockHeaderHash(cs.GetLatestBlock().Header); herr == nil {
-			headBefore, haveHeadBefore = h, true
 		}
 	}
 
